@@ -102,8 +102,8 @@ static void s_case(uint64_t idx, void *ctx)
 }
 
 /* ------------------------------------------------------------------ (2) paths */
-static const int PLEN[] = { 0, 1, 255, 4093, 4094, 4095, 4096, 4097, 40000, 70000 };
-#define NPLEN 10
+static const int PLEN[] = { 0, 1, 255, 4093, 4094, 4095, 4096, 4097, 40000, 70000, 32767, 32768, 65534, 65535, 65536, 66000 };     /* incl. lengths whose sums wrap a 15/16-bit length */
+#define NPLEN 16
 static char *mkcomp(int n, char c) { char *p = malloc((size_t) n + 1); memset(p, c, (size_t) n); p[n] = 0; return p; }
 static char *pathlist_of(int k)        /* 0 NULL, 1 "", 2..11 single component, 12..27 two components, 28 ":x", 29 "x:", 30 "::" */
 {
@@ -302,7 +302,7 @@ int main(int argc, char **argv)
     mc_init("C11", argc, argv);
     libast_debug_level = (unsigned) mc_dlevel();        /* --dlevel=N: the whole run at runtime debug level N (default 0) */
     int N = (int) mc_arg_int("N", mc_thorough() ? 3 : 2);
-    mc_info("alphabet", "(1) files of <= %d lines from %d hostile line kinds x {normal, no final newline, magic without '>', 300-byte magic} + 6 special files; (2) find_file: 10 file lengths x 11 dir choices x 31 pathlist shapes (0..70000 chars); "
+    mc_info("alphabet", "(1) files of <= %d lines from %d hostile line kinds x {normal, no final newline, magic without '>', 300-byte magic} + 6 special files; (2) find_file: 16 file lengths x 17 dir choices (0..70000 characters, incl. 32767/32768/65534..66000) x 31 pathlist shapes (0..70000 chars); "
             "(3) spawn-trap positive controls, temp_file: 4 umasks x TMPDIR/TMP set/unset x 4 template lengths x 50 files; (4) lifecycle E1 over {init, register_context, register_context(null) again, register_builtin, parse, %%put, %%get, %%dirscan, parse_line(NULL,..), free}, 2 cycles; counter sweep 0..300", N, NHOST);
     mc_guarded("controls", "spawn-trap positive controls: backquote value and %exec(true) must reach the trap; single-quoted backquote must not", spawn_controls, NULL);
     mc_guarded("find_file", "find_file positive control: an existing file is found via dir and via the search path", p_found, NULL);
